@@ -3,11 +3,11 @@ WRAPS = ['psGetEntropy', 'psGetTime', 'psDiffMsecs', 'psCompareTime', 'time',
 SRC = ['props/C19/alloc_fault.cc', 'props/C19/testkeys_data.c', 'harness/wraps.c', 'harness/c19_alloc_wraps.c']
 PROP = dict(
     level='exploration',
-    level_text='Bounded-exhaustive single-fault injection inside 60 fixed scenarios (key / CA / PSK / ticket-key loading from files and memory incl. '
+    level_text='Bounded-exhaustive single-fault injection inside 64 fixed scenarios (key / CA / PSK / ticket-key loading from files and memory incl. '
                'unusable material; client and server session creation with SNI + custom hello extensions, session id, expectedName, version and group options; '
                'full / session-id-resumed / ticket-resumed / client-auth / HelloRetryRequest handshakes for TLS 1.1, 1.2, 1.3 and DTLS 1.2 with RSA, ECDSA, PSK, x25519; '
                '40 kB data exchange both ways, closure, deletes in different orders; good credentials and untrusted CA / wrong name / wrong PSK / untrusted client '
-               'certificate / corrupted certificate signature / revoked OCSP staple; OCSP stapling handshakes with a status_request client for TLS 1.2 and 1.3; two-phase scenarios: one loading / refresh call on a key set in use under the fault plan - OCSP staple first load and refresh, session-ticket key rotation, adding a trust anchor - followed by fault-free handshakes that use exactly that feature on the same sslKeys_t). The fault-free run counts the N allocations made inside MatrixSSL API calls; the thorough tier fails, '
+               'certificate / corrupted certificate signature / revoked OCSP staple; OCSP stapling handshakes with a status_request client for TLS 1.2 and 1.3; two-phase scenarios: one loading / refresh call on a key set in use under the fault plan - OCSP staple first load and refresh, session-ticket key rotation, adding a trust anchor, CRL first load and CRL replacement through psX509ParseCRL + psCRL_Update + psX509AuthenticateCRL - followed by fault-free handshakes that use exactly that feature on the same objects; for CRLs the handshakes are run against revoked and unrevoked peers in both directions and their verdicts must equal the fault-free run when every call reported success, and one of no-CRL / old-CRL / new-CRL otherwise). The fault-free run counts the N allocations made inside MatrixSSL API calls; the thorough tier fails, '
                'one per forked run, every k-th allocation outside the bignum/EC-temporary class and up to ~2500 of that class per scenario (first 6 occurrences of '
                'every calling context, then strided), plus "keep failing from k on" and 300 random multi-fault patterns per scenario. '
                'Exhaustive only for single faults outside the bulk class within these scenarios; everything else is sampled (C19_FULL=1 removes the sampling: hours).',
@@ -22,7 +22,7 @@ PROP = dict(
     rule='case = (scenario, mode in {single k, sticky from k, random pattern p}, k); case number = k*257 + scenario*3 + mode (tape = 8-byte big-endian case number). '
          'non-trivial = at least one allocation was failed; distinct by (scenario, mode, k, call site of the first failed allocation). '
          'quick tier: load/session scenarios every non-bulk k; handshake scenarios the first 2 occurrences of every calling context (call site x stack depth) and every 8th later one; '
-         'bulk class (crypto/math, ecc_math.c) first occurrence of every second context + ~40 strided k per scenario; sticky every 3rd of those; 8 random patterns per scenario; strides offset by the seed.',
+         'bulk class (crypto/math, ecc_math.c) first occurrence of every second context + ~30 strided k per scenario; sticky every 3rd of those; 8 random patterns per scenario; strides offset by the seed.',
     assumptions=['single-threaded use', 'only the allocator fails (no I/O errors, no signals)', 'USE_MATRIX_MEMORY_MANAGEMENT off: psMalloc == malloc'],
     targets=[dict(name='c19_alloc_quick', src=SRC, wraps=WRAPS, env={'VERIF_DIR': '/verif'}, enumerate=True, args=['--c19-quick'],
                   quick=dict(cases=0, secs=100, grace=120)),
